@@ -128,8 +128,12 @@ FAULTS = [
     (".rad50 «\"a#b\"»", "invalid-character"), ("«jsr 5, x»", "invalid-addressing"), ("«emt» 400", "value-out-of-bounds"), ("«sob» r0, .+4", "branch-out-of-bounds"),
     (".blkb «-1»", "value-out-of-bounds"), ("«.link 5»", "address-conflict"),
     # parse-time faults whose culprit token is preceded by blanks, a tab or a comment and a line break
-    ("mov r0   «,» ]", "invalid-operand"), ("mov r0 ; c\n\t  «,» ; d\n]", "invalid-operand"), ("1, 2 \t«,» ]", "invalid-operand"), (".word 1 + «)»", "invalid-insn"),
-    (".ascii «\"abc»", "unterminated-string"), ("x «=» ]", "invalid-assignment"),
+    ("mov r0   «,» ]", "invalid-operand"), ("mov r0 ; c\n\t  «,» ; d\n]", "invalid-operand"), ("1, 2 \t«,» ]", "invalid-operand"), (".word 1 + «»)", "invalid-insn"),
+    (".ascii «\"abc»", "unterminated-string", "bk", "start-only"), ("x «=» ]", "invalid-assignment"), (".rad50 \"a\" «<50>»", "value-out-of-bounds"), ("«.error ;abcdef»", "user-error"),
+    ("«.error  oops   ; why»", "user-error"),
+    # text with decomposed letters (base letter + combining mark, as macOS tools store them) on the culprit's own line: positions are
+    # positions in the file's text as it is on disk
+    (".ascii \"\u0438\u0306o\u0308\" <«undefined_sym»>", "undefined-symbol", "utf-8"), (".asciz /e\u0301 \u0418\u0306/ <«undefined_sym»>", "undefined-symbol", "utf-8"),
 ]
 
 
@@ -144,13 +148,17 @@ def unit_rac(eng, tier="quick"):
     n = 0
     try:
         jobs, metas = [], []
-        for text, ident in FAULTS:
+        for fault in FAULTS:
+            text, ident = fault[0], fault[1]
+            charset = fault[2] if len(fault) > 2 else "bk"
+            start_only = len(fault) > 3           # an unterminated literal runs to the end of the file: only its start is the culprit's
             for pre in prefixes:
                 for where in ("main", "second", "included"):
                     if ident == "address-conflict" and where == "included":
                         continue      # an included file has a link base of its own: '.link' there is not a conflict
                     stmt = text.replace("«", "").replace("»", "")
                     start_off = text.index("«")
+                    end_off = text.index("»") - 1
                     lead = ".link 1000\n" if ident == "address-conflict" else ""
                     body = lead + "nop\n" + pre + stmt + "\nx1 = 2\n"
                     pos = len(lead + "nop\n" + pre) + start_off
@@ -168,11 +176,11 @@ def unit_rac(eng, tier="quick"):
                         if lead:
                             pos = len("nop\n" + pre) + start_off
                         names, srcs, fname = [d + "/m.mac"], [(".link 1000\n" if lead else "") + "nop\n.include \"%s\"\n" % incname], incname
-                    jobs.append({"kind": "asm", "sources": srcs, "names": names})
+                    jobs.append({"kind": "asm", "sources": srcs, "names": names, "charset": charset})
                     src_text = (body if where == "main" or not lead else "nop\n" + pre + stmt + "\nx1 = 2\n") if where != "second" else srcs[1]
-                    metas.append((text, ident, where, fname, src_text, pos))
+                    metas.append((text, ident, where, fname, src_text, pos, None if start_only else pos - start_off + end_off))
         res = driver.native(jobs, driver.tree_root(), timeout=1500)
-        for (text, ident, where, fname, src_text, pos), r in zip(metas, res):
+        for (text, ident, where, fname, src_text, pos, endpos), r in zip(metas, res):
             n += 1
             line = src_text[:pos].count("\n") + 1
             ls = src_text.rfind("\n", 0, pos) + 1
@@ -186,10 +194,14 @@ def unit_rac(eng, tier="quick"):
             got = first[2][0][3] if first[2] else None
             if first[1] != ident or got != want:
                 bad.append((text, where, first[1], got, want))
+            elif first[2] and endpos is not None and first[2][0][2] != endpos:
+                bad.append((text, where, "the first range ends at offset %s, the culprit ends at %s" % (first[2][0][2], endpos), src_text[pos:first[2][0][2]][:30]))
             for dg in r.get("diags", []):
                 for fn_, p0, p1, r0, r1 in dg[2]:
                     if p0 is None or p1 is None or p0 > p1:
                         bad.append((text, where, "span start after end", p0, p1))
+                    elif fn_ == fname and not (0 <= p0 <= p1 <= len(src_text)):
+                        bad.append((text, where, "range outside the file", p0, p1, len(src_text)))
     finally:
         shutil.rmtree(d, ignore_errors=True)
     ob = dict(label="first-reported-position-is-the-planted-token's-file:line:column(tabs=4, non-ASCII, comments; main / linked / included file)", kind="rac", status="proved" if n and not bad else "failed",
@@ -198,8 +210,50 @@ def unit_rac(eng, tier="quick"):
     return dict(unit="culprit-rac", func="parser + Compiler + reports (run-time check)", paths=n, obligations=[ob], wall=0.0)
 
 
+def unit_text_identity(eng):
+    """frame: the text the scanner works on IS the file's text - parser.parse hands its argument to Context unchanged, and every caller passes
+    what it read from the file (a position is a position in the file on disk only then)"""
+    pkg = os.path.join(driver.tree_root(), "pdpy11")
+    mods = frames.parse_package(pkg)
+    bad = []
+    # 1. parse(filename, text): parameters never reassigned; Context(...) receives exactly (filename, text)
+    for fn in ast.walk(mods["parser"]):
+        if isinstance(fn, ast.FunctionDef) and fn.name == "parse":
+            params = [a.arg for a in fn.args.args]
+            for sub in ast.walk(fn):
+                if isinstance(sub, ast.Name) and isinstance(sub.ctx, ast.Store) and sub.id in params:
+                    bad.append(("parser.parse", "parameter %s is reassigned (line %d)" % (sub.id, sub.lineno)))
+            ctx_calls = [c for c in ast.walk(fn) if isinstance(c, ast.Call) and isinstance(c.func, ast.Name) and c.func.id == "Context"]
+            if len(ctx_calls) != 1 or [frames.text(a) for a in ctx_calls[0].args] != params:
+                bad.append(("parser.parse", "Context(...) does not receive exactly the parameters %s: %s" % (params, [frames.text(c) for c in ctx_calls])))
+    # 2. every call of parse(path, source): 'source' is assigned only from a .read() call (or unpacked from the list of (path, source) pairs read that way)
+    for mname, tree in mods.items():
+        for fn in ast.walk(tree):
+            if not isinstance(fn, ast.FunctionDef):
+                continue
+            for call in ast.walk(fn):
+                if isinstance(call, ast.Call) and (frames.text(call.func) in ("parser.parse", "parse")) and len(call.args) == 2:
+                    arg = call.args[1]
+                    if not isinstance(arg, ast.Name):
+                        bad.append((mname + "." + fn.name, "the text passed to parse is not a plain variable: %s" % frames.text(arg)))
+                        continue
+                    for st in ast.walk(fn):
+                        if getattr(st, "lineno", 0) >= call.lineno:
+                            continue          # what happens to the variable after the call does not matter
+                        if isinstance(st, ast.Assign) and any(isinstance(t, ast.Name) and t.id == arg.id for t in st.targets):
+                            v = st.value
+                            if not (isinstance(v, ast.Call) and isinstance(v.func, ast.Attribute) and v.func.attr == "read" and not v.args):
+                                bad.append((mname + "." + fn.name, "%s = %s (line %d): not the text as read" % (arg.id, frames.text(v)[:60], st.lineno)))
+                        if isinstance(st, ast.AugAssign) and isinstance(st.target, ast.Name) and st.target.id == arg.id:
+                            bad.append((mname + "." + fn.name, "%s is modified in place (line %d)" % (arg.id, st.lineno)))
+    ob = dict(label="the-scanner-works-on-the-file's-text-unchanged(parse -> Context; callers pass what they read)", kind="frame", status="proved" if not bad else "failed", secs=0.0, path=[],
+              witness=None, detail=str(bad), events=[], smt2=None, backend="ast-inventory", unit="text-identity", func="parser.parse and its callers (frame)", cfg=dict(kind="frame"))
+    return dict(unit="text-identity", func="parser.parse and its callers (frame)", paths=1, obligations=[ob], wall=0.0)
+
+
+
 def units(tier):
-    us = [("span-frame", "unit_span_frame", {}), ("bounded-repr", "unit_bounded_repr", dict(tier=tier)), ("rac", "unit_rac", dict(tier=tier))]
+    us = [("text-identity", "unit_text_identity", {}), ("span-frame", "unit_span_frame", {}), ("bounded-repr", "unit_bounded_repr", dict(tier=tier)), ("rac", "unit_rac", dict(tier=tier))]
     # the report machinery hands the parts of a diagnostic to the handler unchanged and in order (the culprit is the first part)
     for p in ("error", "critical", "warning"):
         us.append(("emit_report[%s]" % p, "unit_emit_report", dict(prio=p, latched=False)))
